@@ -35,6 +35,10 @@ pub struct Original {
     pub plain: Bytes,
     pub e_tag: Option<String>,
     pub lm_ms: i64,
+    /// false for the target of a copy / rename made AFTER the tamper: it is a
+    /// commit of its own (fresh token and commit time), so only its bytes and
+    /// size have an original
+    pub meta_known: bool,
 }
 
 #[derive(Clone)]
@@ -133,7 +137,7 @@ pub async fn build_scenario(size: usize, writer: Writer) -> Scenario {
     }
     for (k, plain) in keys {
         let m = store.head(&Path::from(k)).await.expect("head");
-        original.insert(k.to_string(), Original { plain, e_tag: m.e_tag, lm_ms: m.last_modified.timestamp_millis() });
+        original.insert(k.to_string(), Original { plain, e_tag: m.e_tag, lm_ms: m.last_modified.timestamp_millis(), meta_known: true });
     }
     let mut sym = BTreeMap::new();
     for p in base.keys() {
@@ -840,10 +844,10 @@ fn check_entries(
                 if e.size != o.plain.len() as u64 {
                     return Verdict::Wrong("size", format!("listing reports size {} for {loc}, written {}", e.size, o.plain.len()));
                 }
-                if e.e_tag != o.e_tag {
+                if o.meta_known && e.e_tag != o.e_tag {
                     return Verdict::Wrong("e_tag", format!("listing reports e_tag {:?} for {loc}, committed {:?}", e.e_tag, o.e_tag));
                 }
-                if e.last_modified.timestamp_millis() != o.lm_ms {
+                if o.meta_known && e.last_modified.timestamp_millis() != o.lm_ms {
                     return Verdict::Wrong(
                         "last_modified",
                         format!("listing reports last_modified {} for {loc}, committed {}", e.last_modified.timestamp_millis(), o.lm_ms),
@@ -886,10 +890,10 @@ pub async fn do_read(sc: &Scenario, store: &dyn ObjectStore, rd: &Read, soft: &m
                 return Verdict::Wrong("size", format!("get reports size {size}, written {}", plain.len()));
             }
             let o = &sc.original[key];
-            if got_tag != o.e_tag {
+            if o.meta_known && got_tag != o.e_tag {
                 return Verdict::Wrong("e_tag", format!("get reports e_tag {:?}, committed {:?}", got_tag, o.e_tag));
             }
-            if got_lm != o.lm_ms {
+            if o.meta_known && got_lm != o.lm_ms {
                 return Verdict::Wrong("last_modified", format!("get reports last_modified {got_lm}, committed {}", o.lm_ms));
             }
             match expect_range(plain, range) {
@@ -934,10 +938,10 @@ pub async fn do_read(sc: &Scenario, store: &dyn ObjectStore, rd: &Read, soft: &m
                     if m.size != o.plain.len() as u64 {
                         return Verdict::Wrong("size", format!("head reports size {}, written {}", m.size, o.plain.len()));
                     }
-                    if m.e_tag != o.e_tag {
+                    if o.meta_known && m.e_tag != o.e_tag {
                         return Verdict::Wrong("e_tag", format!("head reports e_tag {:?}, committed {:?}", m.e_tag, o.e_tag));
                     }
-                    if m.last_modified.timestamp_millis() != o.lm_ms {
+                    if o.meta_known && m.last_modified.timestamp_millis() != o.lm_ms {
                         return Verdict::Wrong(
                             "last_modified",
                             format!("head reports last_modified {}, committed {}", m.last_modified.timestamp_millis(), o.lm_ms),
@@ -997,28 +1001,169 @@ pub fn check_content(sc: &Scenario, content: &Content, touched: &[String], stric
     list_reads(&mut reads);
     let mut out = SiteOut::default();
     for rd in &reads {
-        out.reads += 1;
-        let mut soft = SoftStats::default();
-        let v = std::panic::catch_unwind(std::panic::AssertUnwindSafe(|| {
-            vcore::util::block_on(do_read(sc, store.as_ref(), rd, &mut soft))
-        }));
-        out.soft.meta_field_deviations += soft.meta_field_deviations;
-        out.soft.listing_entries_skipped += soft.listing_entries_skipped;
-        match v {
-            Ok(Verdict::Original) => out.original += 1,
-            Ok(Verdict::Failed) => {
-                out.failed += 1;
-                out.failed_reads.push(rd.clone());
-            }
-            Ok(Verdict::Wrong(field, why)) => out.wrong.push((rd.clone(), field, why)),
-            Err(_) => {
-                out.failed += 1;
-                out.panicked += 1;
-                out.failed_reads.push(rd.clone());
-            }
-        }
+        one_read(sc, store.as_ref(), rd, &mut out);
     }
     out
+}
+
+/// One read against the oracle, a panic caught and counted as a failure.
+fn one_read(sc: &Scenario, store: &dyn ObjectStore, rd: &Read, out: &mut SiteOut) {
+    out.reads += 1;
+    let mut soft = SoftStats::default();
+    let v = std::panic::catch_unwind(std::panic::AssertUnwindSafe(|| vcore::util::block_on(do_read(sc, store, rd, &mut soft))));
+    out.soft.meta_field_deviations += soft.meta_field_deviations;
+    out.soft.listing_entries_skipped += soft.listing_entries_skipped;
+    match v {
+        Ok(Verdict::Original) => out.original += 1,
+        Ok(Verdict::Failed) => {
+            out.failed += 1;
+            out.failed_reads.push(rd.clone());
+        }
+        Ok(Verdict::Wrong(field, why)) => out.wrong.push((rd.clone(), field, why)),
+        Err(_) => {
+            out.failed += 1;
+            out.panicked += 1;
+            out.failed_reads.push(rd.clone());
+        }
+    }
+}
+
+// ---------------------------------------------------------------------------
+// further read paths: a second long-lived instance with a stale cache, and
+// copy / rename followed by reads of the target
+
+/// Through which kind of reader a tampered content is read.
+#[derive(Clone, Copy, Debug, PartialEq, Eq, Hash, Serialize, Deserialize, PartialOrd, Ord)]
+pub enum Reader {
+    /// a fresh instance (cold cache)
+    Fresh,
+    /// an instance that read key `a` while its PREVIOUS commit was current:
+    /// its cache holds a valid but stale document whose generation has been
+    /// reclaimed, so the read re-resolves the commit point half-way
+    Stale,
+    /// a fresh instance copies every touched key to a new key, then the
+    /// target is read
+    Copy,
+    /// same with rename
+    Rename,
+}
+
+impl Reader {
+    pub fn label(&self) -> &'static str {
+        match self {
+            Reader::Fresh => "fresh",
+            Reader::Stale => "stale-cache-reader",
+            Reader::Copy => "via-copy",
+            Reader::Rename => "via-rename",
+        }
+    }
+}
+
+/// Sites a stale-cache reader of `a` can tell apart from the untampered
+/// store: those that touch `a`'s metadata document (`wide`: or its current
+/// payload object).
+pub fn stale_applicable(t: &Tamper, wide: bool) -> bool {
+    let hit = |p: &String| p == "meta/a" || (wide && p == "gen/a/CUR");
+    match t {
+        Tamper::Flip { path, .. } | Tamper::Truncate { path, .. } | Tamper::Extend { path, .. } | Tamper::Cbor { path, .. } => hit(path),
+        Tamper::SwapChunks { path, .. } => hit(path),
+        Tamper::SwapObjects { a, b } => (hit(a) || hit(b)) && a != "gen/a/OLD" && b != "gen/a/OLD",
+        Tamper::ReplaceObject { dst, src } => hit(dst) && src != "gen/a/OLD",
+        Tamper::Compound { key, .. } => key == "a",
+        Tamper::Rollback | Tamper::StripAndRelocate { .. } => false,
+    }
+}
+
+/// The reads issued through a stale-cache instance, each through its own
+/// instance (the first read after the overwrite is the one that re-resolves).
+pub fn stale_reads(len: u64) -> Vec<Read> {
+    use crate::battery::Rng;
+    let k = "a".to_string();
+    let mut out = vec![Read::Get { key: k.clone(), range: None }, Read::Head { key: k.clone() }];
+    let mut ranges = vec![Rng::B(0, 1), Rng::B(0, len.max(1)), Rng::B(CS - 1, CS + 1), Rng::O(1), Rng::S(1), Rng::S(len + 1)];
+    ranges.dedup();
+    for r in ranges {
+        out.push(Read::Get { key: k.clone(), range: Some(r) });
+    }
+    out.push(Read::Ranges { key: k.clone(), rs: vec![(0, len.max(1))] });
+    out.push(Read::Ranges { key: k.clone(), rs: vec![(0, 1), (len.saturating_sub(1), len.max(1))] });
+    // no listing: this instance lists `a` from its cache entry (the previous
+    // commit, authentic) without looking at the backend document
+    out
+}
+
+/// Every read of [`stale_reads`] through its OWN instance A: A first reads
+/// `a` while the older commit (its document and generation object) is what
+/// the backend holds — a valid, warm cache entry; then the backend content
+/// becomes `content` without the replaced generation object (instance B's
+/// overwrite reclaimed it, then the tamper); then A reads.
+pub fn check_content_stale(sc: &Scenario, content: &Content, strict: bool) -> SiteOut {
+    use vcore::util::now;
+    let old_gen = Path::from(sc.old_gen_path.as_str());
+    let mut pre = Content::new();
+    pre.insert("meta/a".into(), sc.old_meta.clone());
+    pre.insert(sc.old_gen_path.clone(), sc.base[&sc.old_gen_path].clone());
+    let len = sc.original["a"].plain.len() as u64;
+    let mut out = SiteOut::default();
+    for rd in stale_reads(len) {
+        let inner = restore(&pre);
+        let store = if strict { enc_strict(inner.clone()) } else { enc(inner.clone()) };
+        // warm the cache with the older commit (must read back: it is untampered)
+        let warm = vcore::util::block_on(async { store.get(&Path::from("a")).await?.bytes().await });
+        match warm {
+            Ok(b) if b == sc.old_plain => {}
+            other => vcore::report::machinery(&format!("stale reader: warming read of the older commit failed: {other:?}")),
+        }
+        now(inner.delete(&old_gen)).expect("delete InMemory");
+        for (p, v) in content {
+            if *p != sc.old_gen_path {
+                now(inner.put(&Path::from(p.as_str()), v.clone().into())).expect("put InMemory");
+            }
+        }
+        one_read(sc, store.as_ref(), &rd, &mut out);
+    }
+    out
+}
+
+pub fn copy_target(key: &str) -> String {
+    format!("t-{}", key.replace('/', "_"))
+}
+
+/// A fresh instance over `content` copies (or renames) every touched key to
+/// a new key; a refused copy is a failure to answer; after an accepted one
+/// the full read battery runs on the target, which must answer the SOURCE's
+/// original bytes and size (token and commit time are the copy's own).
+/// Returns the outcome and the number of copies accepted / refused.
+pub fn check_content_via_copy(sc: &Scenario, content: &Content, touched: &[String], strict: bool, rename: bool) -> (SiteOut, u64, u64) {
+    let inner = restore(content);
+    let store = if strict { enc_strict(inner) } else { enc(inner) };
+    let mut alt = sc.clone();
+    let mut out = SiteOut::default();
+    let (mut accepted, mut refused) = (0u64, 0u64);
+    let mut reads = Vec::new();
+    for k in touched {
+        let Some(o) = sc.original.get(k) else { continue };
+        let target = copy_target(k);
+        let (from, to) = (Path::from(k.as_str()), Path::from(target.as_str()));
+        let r = std::panic::catch_unwind(std::panic::AssertUnwindSafe(|| {
+            vcore::util::block_on(async { if rename { store.rename(&from, &to).await } else { store.copy(&from, &to).await } })
+        }));
+        match r {
+            Ok(Ok(())) => {
+                accepted += 1;
+                alt.original.insert(target.clone(), Original { plain: o.plain.clone(), e_tag: None, lm_ms: 0, meta_known: false });
+                reads_for(&target, o.plain.len() as u64, true, &mut reads);
+            }
+            _ => refused += 1,
+        }
+    }
+    if accepted > 0 {
+        list_reads(&mut reads);
+    }
+    for rd in &reads {
+        one_read(&alt, store.as_ref(), rd, &mut out);
+    }
+    (out, accepted, refused)
 }
 
 // ---------------------------------------------------------------------------
